@@ -72,6 +72,19 @@ if __name__ == '__main__':
     if sys.argv[1] == 'scan':
         print(json.dumps(scan(sys.argv[2]), indent=1))
     else:
+        # a site is "new" when a function has MORE sites of a kind than the table accounts for (a rewrite of an existing site is not new)
         cur = scan(sys.argv[2]); table = json.load(open(sys.argv[3]))
-        tk = {key(s) for s in table}; ck = {key(s) for s in cur}
-        print(json.dumps(dict(new=[s for s in cur if key(s) not in tk], gone=[s for s in table if key(s) not in ck], total=len(cur))))
+        import collections
+        def group(l):
+            g = collections.defaultdict(list)
+            for s in l: g[(s['file'], s['fn'], s['kind'])].append(s)
+            return g
+        gc, gt = group(cur), group(table)
+        new = []; gone = []
+        for k, l in gc.items():
+            known = {x['text'] for x in gt.get(k, [])}
+            extra = len(l) - len(gt.get(k, []))
+            if extra > 0: new += [x for x in l if x['text'] not in known][:extra] or l[:extra]
+        for k, l in gt.items():
+            if len(gc.get(k, [])) < len(l): gone += l[len(gc.get(k, [])):]
+        print(json.dumps(dict(new=new, gone=gone, total=len(cur))))
